@@ -257,12 +257,7 @@ Proof.
 Qed.
 
 Lemma rfc5280_wf_b_iff c : rfc5280_wf_b c = true <-> rfc5280_wf c.
-Proof.
-  unfold rfc5280_wf_b, rfc5280_wf. rewrite andb_true_iff, nodup_b_iff, forallb_forall. split.
-  - intros [H1 H2]. split; [exact H1|]. intros e He E. specialize (H2 e He). rewrite E in H2. discriminate.
-  - intros [H1 H2]. split; [exact H1|]. intros e He. specialize (H2 e He).
-    destruct (e_val e) as [| | | | [|g r] | | | |]; try reflexivity. contradiction.
-Qed.
+Proof. unfold rfc5280_wf_b, rfc5280_wf. apply nodup_b_iff. Qed.
 
 Lemma inputs_wf_b_iff rs leaf reg : inputs_wf_b rs leaf reg = true <-> inputs_wf rs leaf reg.
 Proof.
